@@ -47,6 +47,25 @@ ASSUMPTIONS = [
     "observed again and judged by Spec.C17.holds (views tagged 'after the near-miss look-ups').  "
     "Only strings are used as names",
 ]
+ASSUMPTIONS += [
+    "every slice must be as wide as its term's own block (Spec.C17.widthsOk, part of Spec.C17.holds): the "
+    "widths are asked of the terms themselves (training object: term.data; derived object: "
+    "term.eval_new_data(frame) under the policy in force), not read from the slices -- for every group "
+    "object, every training object, and the common objects derived in the chain family / after a second "
+    "design; obj[name] is also compared with that block on the Python side",
+    "a fifth family (seed paths 'ch<i>'): designs with 2-3 group-specific terms over distinct grouping "
+    "columns (g, h, f, k, kz; 60% with the same effect in every term, 20% with an interaction factor as "
+    "well) and chains of 2-4 evaluate_new_data calls in which every step's frame has unseen levels in "
+    "exactly the grouping columns a drawn plan names for that step (a then b, b then a, a-b-a, a-none-b, "
+    "none-a-b, a-b-none, {a,b}-a, ...), so that a step may keep its parent's total width while the "
+    "terms' widths change; every object of the chain is judged after every step",
+    "other-design stage (random stream (seed, 'c17', path, 'other-design'); 2 of 7 cases): AFTER the "
+    "design and its chain have been judged, a SECOND design with the same formula text is built on "
+    "another generated frame (other length; levels of every categorical column the same / one more / one "
+    "fewer / all relabelled); the FIRST design's training objects (Spec.C17.holds incl. widths and labels, "
+    "views, printing, look-ups, response, tuple unpacking) and one object derived from it afterwards are "
+    "judged again: designs are independent objects",
+]
 TRUSTED = ["numpy column_stack / slicing, pandas DataFrame construction (modelled by hstack/slices)"]
 
 CORPUS = [
@@ -64,16 +83,41 @@ CORPUS = [
 ]
 
 
-def view(obj, n_expected, widened=False):
+def own_blocks(obj, nd=None):
+    """every term's own block on the data of this object, asked of the terms themselves (training
+    object: term.data; object derived with the frame `nd`: term.eval_new_data(nd), under the policy
+    in force) -- not read from the object's slices.  None when a term cannot be asked."""
+    out = []
+    try:
+        for t in obj.terms.values():
+            with warnings.catch_warnings():
+                warnings.simplefilter("ignore")
+                a = np.asarray(t.data if nd is None else t.eval_new_data(nd))
+            out.append(a.reshape(len(a), -1) if a.ndim != 2 else a)
+    except Exception:  # noqa
+        return None
+    return out
+
+
+_UNSET = object()
+
+
+def view(obj, n_expected, widened=False, nd=None, blocks=_UNSET):
     dmx = np.asarray(obj.design_matrix)
     if dmx.ndim == 1:
         dmx = dmx[:, None]
     terms = list(obj.terms.values())
-    return {"nrows": int(dmx.shape[0]), "ncols": int(dmx.shape[1]),
-            "row_lens": [int(dmx.shape[1])] * int(dmx.shape[0]),
-            "slices": [[k, int(s.start), int(s.stop)] for k, s in obj.slices.items()],
-            "terms": [t.name for t in terms], "labels": designs._labels(terms),
-            "check_labels": not widened, "expected_rows": int(n_expected)}
+    v = {"nrows": int(dmx.shape[0]), "ncols": int(dmx.shape[1]),
+         "row_lens": [int(dmx.shape[1])] * int(dmx.shape[0]),
+         "slices": [[k, int(s.start), int(s.stop)] for k, s in obj.slices.items()],
+         "terms": [t.name for t in terms], "labels": designs._labels(terms),
+         "check_labels": not widened, "expected_rows": int(n_expected)}
+    if blocks is _UNSET:
+        blocks = own_blocks(obj, nd)
+    if blocks is not None:
+        # Spec.C17.widthsOk: every slice is as wide as its term's own block on this object's data
+        v["widths"] = [int(b.shape[1]) for b in blocks]
+    return v
 
 
 def _mutate_name(r, name):
@@ -176,10 +220,23 @@ def near_miss_checks(obj, r):
     return bad, tried
 
 
-def api_checks(obj, kind):
+def api_checks(obj, kind, nd=None, blocks=_UNSET):
     """relations between the views of one object; returns a list of complaints"""
     bad = []
     dmx = np.asarray(obj.design_matrix)
+    if blocks is _UNSET:
+        blocks = own_blocks(obj, nd)
+    if blocks is not None:
+        for (name, t), own in zip(obj.terms.items(), blocks):
+            try:
+                sub = np.asarray(obj[name])
+                sub = sub.reshape(len(sub), -1) if sub.ndim != 2 else sub
+                if sub.shape != own.shape or not np.array_equal(
+                        np.asarray(sub, dtype=float), np.asarray(own, dtype=float), equal_nan=True):
+                    bad.append(f"obj[{name!r}] (shape {sub.shape}) is not the term's own block "
+                               f"(shape {own.shape})")
+            except Exception as e:  # noqa
+                bad.append(f"obj[{name!r}] against the term's own block raised {type(e).__name__}")
     try:
         if np.asarray(obj) is not obj.design_matrix and not np.array_equal(
                 np.asarray(obj), dmx, equal_nan=True):
@@ -402,6 +459,119 @@ def add_offset(r, formula):
     return f"{resp} ~ {off} + {rhs}" if r.random() < 0.4 else f"{resp} ~ {rhs} + {off}"
 
 
+# ------------------------------------------------------------------------------------------------
+# chains whose steps widen DIFFERENT grouping factors: designs with two or three group-specific terms
+# over distinct grouping columns; every step's new frame has unseen levels in exactly the columns the
+# plan names for it (one column, none, or two), so that a step may keep the total width of its parent
+# while the widths of the terms change (seed paths 'ch<i>')
+# ------------------------------------------------------------------------------------------------
+CHAIN_COLS = ["g", "h", "f", "k", "kz"]
+CHAIN_EFFECTS = ["1", "1", "x", "0 + x", "z", "1 + x", "x + z", "center(x)", "0 + f", "0 + h", "f",
+                 "0 + x:z", "h"]
+
+
+def is_chain_path(path):
+    return isinstance(path, str) and path.startswith("ch")
+
+
+def gen_chain_formula(r):
+    """-> (formula, grouping columns in the order of their terms, plan: per step the columns that get
+    an unseen level)"""
+    cols = r.sample(CHAIN_COLS, r.choice([2, 2, 2, 3]))
+    effects = [e for e in CHAIN_EFFECTS if not (set(re.findall(r"[a-z]+", e)) & set(cols))]
+    same = r.choice(effects) if r.random() < 0.6 else None     # equal effect widths: equal widenings
+    groups = []
+    for c in cols:
+        fac = "C(k)" if c == "k" and r.random() < 0.5 else c
+        groups.append(f"({same or r.choice(effects)} | {fac})")
+    if r.random() < 0.2:
+        a, b = r.sample(cols, 2)
+        groups.append(f"(1 | {a}:{b})")
+    terms = []
+    for _ in range(r.randrange(0, 3)):
+        t = designs.gen_term(r, extra=True)
+        if "levels=" in t or "C(co)" in t:
+            continue
+        if t not in terms:
+            terms.append(t)
+    pos = sorted(r.randrange(len(terms) + 1) for _ in groups)
+    for k, (i, g) in enumerate(zip(pos, groups)):              # group terms keep their order
+        terms.insert(i + k, g)
+    a, b = r.sample(cols, 2)
+    plans = [[[a], [b]], [[b], [a]], [[a], [b], [a]], [[a], [], [b]], [[], [a], [b]], [[a], [b], []],
+             [[a, b], [a]], [[a], [b], [a, b]], [[a], [b], [b], [a]]]
+    if len(cols) > 2:
+        c = [x for x in cols if x not in (a, b)][0]
+        plans += [[[a], [b], [c]], [[c], [a], [b], [c]], [[a], [c]]]
+    plan = r.choice(plans)
+    resp = r.choice(["y", "y", "yc", "yc[yes]", "p(s, n)"])
+    return f"{resp} ~ " + r.choice(["", "", "0 + ", "1 + "]) + " + ".join(terms), cols, plan
+
+
+def chain_frames(r, df, plan):
+    """one new frame per step: rows of the training frame, and in exactly the columns the plan names
+    for the step 1-2 cells replaced by a level the training frame does not have"""
+    out = []
+    for step, unseen in enumerate(plan):
+        m = r.randrange(2, 8)
+        nd = df.iloc[[r.randrange(len(df)) for _ in range(m)]].reset_index(drop=True).copy()
+        for col in unseen:
+            rows = r.sample(range(m), r.randrange(1, 3))
+            if col in ("k", "kz"):
+                new = r.choice([5, 77, -9, 100 + step])
+            else:
+                nd[col] = nd[col].astype(object)
+                new = r.choice(["NEW_" + col, "A_new", f"zz{step}"])
+            for i in rows:
+                nd.loc[i, col] = new
+        out.append(designs.scramble_index(r, nd))
+    return out
+
+
+# ------------------------------------------------------------------------------------------------
+# another frame for a SECOND design with the same formula text (built after the first design has
+# been judged): generated afresh, other length, and the levels of every categorical column the same /
+# one more / one fewer / all relabelled, so that level and group counts differ between the designs
+# ------------------------------------------------------------------------------------------------
+OTHER_DESIGN = [None, None, None, None, None, "same-levels", "one-more-level", "one-level-fewer", "relabelled",
+                "one-more-level"]
+
+
+def other_frame(rd, kind, float_cols=False):
+    d = designs.gen_frame(rd).reset_index(drop=True)
+    n = len(d)
+    if float_cols:
+        d = add_float_columns(rd, d)
+    if kind == "same-levels":
+        return d
+    for name in ("f", "g", "h", "yc", "cu", "co", "k", "kz", "one"):
+        col = d[name]
+        is_cat = isinstance(col.dtype, pd.CategoricalDtype)
+        vals = col.tolist()
+        levels = list(col.dtype.categories) if is_cat else sorted(set(vals))
+        numeric = name in ("k", "kz")
+        new_level = rd.choice([min(levels) - 3, max(levels) + 7, 5]) if numeric else \
+            rd.choice(["A_new", "zz_new", "n_new"])
+        if kind == "one-more-level":
+            for i in rd.sample(range(n), rd.randrange(1, 3)):
+                vals[i] = new_level
+            pos = rd.randrange(len(levels) + 1)
+            levels = levels[:pos] + [new_level] + levels[pos:]
+        elif kind == "one-level-fewer":
+            if len(levels) < 2:
+                continue
+            gone = rd.choice(levels)
+            keep = [l for l in levels if l != gone]
+            vals = [rd.choice(keep) if v == gone else v for v in vals]
+            levels = keep
+        else:
+            vals = [v + 100 if numeric else str(v) + "_2" for v in vals]
+            levels = [v + 100 if numeric else str(v) + "_2" for v in levels]
+        d[name] = pd.Categorical(vals, categories=levels, ordered=bool(col.dtype.ordered)) if is_cat \
+            else vals
+    return d
+
+
 def explore(tier, seed, res=None, replay=None):
     import formulae
     res = res or Result()
@@ -413,7 +583,11 @@ def explore(tier, seed, res=None, replay=None):
                 "(non-unique) indexes, designs with an offset term; every chain is also indexed with "
                 "near-miss names derived from its real term names (spacing, case, extra / lost "
                 "characters, lme4 spelling, ...: all must be refused) and its objects, plus one derived "
-                "afterwards, are judged again by Spec.C17.holds; non-trivial = a design with >= 2 terms in "
+                "afterwards, are judged again by Spec.C17.holds; plus designs with 2-3 grouping factors whose "
+                "chain steps have unseen levels in different grouping factors per step (slice widths = "
+                "the terms' own widths after every step); for 2 of 7 cases a second design with the same "
+                "formula text is built on another frame afterwards and the first design is judged again; "
+                "non-trivial = a design with >= 2 terms in "
                 "some matrix; distinct by formula text")
     rng = rng_for(seed, "c17")
     n_cases = 300 if tier == "quick" else 10000
@@ -431,6 +605,8 @@ def explore(tier, seed, res=None, replay=None):
             cases.append((None, f"na{i}"))
         for i in range(60 if tier == "quick" else 2000):
             cases.append((None, f"of{i}"))
+        for i in range(90 if tier == "quick" else 3000):
+            cases.append((None, f"ch{i}"))
     open_ids = {k["id"] for k in known_findings("C17")}
     views, owners, reqs, req_owner = [], [], [], []
     records = []
@@ -441,10 +617,14 @@ def explore(tier, seed, res=None, replay=None):
         # frame edits and new frames that follow come from the same stream as in the original run
         regenerate = f is None or (replay is not None and not (
             isinstance(path, int) and path < len(CORPUS) and CORPUS[path][0] == f))
+        plan = None
         if is_float_path(path):
             df = add_float_columns(r, df)
             g = gen_float_formula(r) if regenerate else None
             res.count("float_level_cases")
+        elif is_chain_path(path):
+            g, _, plan = gen_chain_formula(r)
+            res.count("chain_cases: steps with unseen levels in different grouping factors")
         else:
             g = designs.gen_formula(r, extra=True) if regenerate else None
         if is_offset_path(path):
@@ -459,10 +639,13 @@ def explore(tier, seed, res=None, replay=None):
         keep = complete_mask(df, used)
         res.evaluations += 1
         with_unseen = r.random() < 0.6
-        news = new_frames(r, df if keep.all() else df[keep], with_unseen)
+        news = new_frames(r, df if keep.all() else df[keep], with_unseen) if plan is None else \
+            chain_frames(r, df, plan)
         obs, req = designs.observe(formula, df, designs.NAMES,
                                    [{"df": nd, "mode": "silent"} for nd in news])
         case = {"formula": formula, "seed_path": path}
+        if plan is not None:
+            case["unseen_levels_per_step_in"] = plan
         if req is None:
             res.count("impl_error:" + obs["err"])
             continue
@@ -481,28 +664,41 @@ def explore(tier, seed, res=None, replay=None):
                 obj = getattr(dm, kind)
                 if obj is None:
                     continue
-                chain = [(obj, n)]
+                chain = [(obj, n, None)]
                 cur = obj
                 for nd in news:
                     try:
                         with warnings.catch_warnings():
                             warnings.simplefilter("ignore")
                             cur = cur.evaluate_new_data(nd)
-                        chain.append((cur, len(nd)))
+                        chain.append((cur, len(nd), nd))
                     except Exception as e:  # noqa
                         res.count(f"new_data_error:{type(e).__name__}")
                         break
                 base_width = np.asarray(obj.design_matrix).shape[-1]
-                for o, rows in chain:
+                for step, (o, rows, nd) in enumerate(chain):
                     widened = np.asarray(o.design_matrix).shape[-1] != base_width
-                    rec["views"].append(view(o, rows, widened))
-                    rec["bad"] += api_checks(o, kind)
+                    # the terms' own blocks: every group object and every training object; objects
+                    # derived from the common matrix in the chain family (and, below, after a second
+                    # design) -- a common term keeps its training width (C17_newTerm_shape_partial)
+                    blocks = own_blocks(o, nd) if (kind == "group" or nd is None or plan is not None) \
+                        else None
+                    v = view(o, rows, widened, nd, blocks)
+                    if step:
+                        v["stage"] = f"step {step} of the chain of evaluate_new_data calls"
+                    rec["views"].append(v)
+                    rec["bad"] += [f"{kind}, step {step}: {b}" for b in api_checks(o, kind, nd, blocks)]
+                    if kind == "group" and step and v.get("widths") is not None:
+                        prev = rec["views"][-2]
+                        if prev.get("widths") not in (None, v["widths"]):
+                            res.count("chain steps that change the widths of group terms"
+                                      + (" at equal total width" if prev["ncols"] == v["ncols"] else ""))
                 # look-ups with near-miss names (own random stream: the streams of the frames above are
                 # left as they were), on the training object and / or objects derived from it, in a
                 # drawn order; every object of the chain -- made before the look-ups -- is then
                 # observed again, and one more object is derived after them
                 rn = rng_for(seed, "c17", path, "near-miss", kind)
-                targets = [o for o, _ in chain if rn.random() < 0.6] or [rn.choice(chain)[0]]
+                targets = [o for o, _, _ in chain if rn.random() < 0.6] or [rn.choice(chain)[0]]
                 rn.shuffle(targets)
                 for o in targets:
                     complaints, tried = near_miss_checks(o, rn)
@@ -515,26 +711,70 @@ def explore(tier, seed, res=None, replay=None):
                         with warnings.catch_warnings():
                             warnings.simplefilter("ignore")
                             k = rn.randrange(len(chain) - 1)
-                            after.append((chain[k][0].evaluate_new_data(news[k]), len(news[k])))
+                            after.append((chain[k][0].evaluate_new_data(news[k]), len(news[k]), news[k]))
                     except Exception as e:  # noqa
                         res.count(f"new_data_error_after_lookups:{type(e).__name__}")
-                for o, rows in after:
+                for o, rows, nd in after:
                     widened = np.asarray(o.design_matrix).shape[-1] != base_width
-                    v = view(o, rows, widened)
+                    v = view(o, rows, widened, nd, own_blocks(o, nd) if kind == "group" or nd is None
+                             else None)
                     v["stage"] = "after the near-miss look-ups"
                     rec["after"].append(v)
-            rec["bad"] += response_checks(dm)
-            try:
-                a, b, c = dm
-                if a is not dm.response or b is not dm.common or c is not dm.group:
-                    rec["bad"].append("tuple unpacking does not give (response, common, group)")
-                str(dm), repr(dm)
-            except Exception as e:  # noqa
-                rec["bad"].append(f"DesignMatrices unpack/print raised {type(e).__name__}")
-            if dm.response is not None:
-                rm = np.asarray(dm.response.design_matrix)
-                if rm.shape[0] != n:
-                    rec["bad"].append("response rows differ from the retained observations")
+            def whole_design(tag=""):
+                bad = response_checks(dm)
+                try:
+                    a, b, c = dm
+                    if a is not dm.response or b is not dm.common or c is not dm.group:
+                        bad.append("tuple unpacking does not give (response, common, group)")
+                    str(dm), repr(dm)
+                except Exception as e:  # noqa
+                    bad.append(f"DesignMatrices unpack/print raised {type(e).__name__}")
+                if dm.response is not None:
+                    rm = np.asarray(dm.response.design_matrix)
+                    if rm.shape[0] != n:
+                        bad.append("response rows differ from the retained observations")
+                return [tag + b for b in bad]
+            rec["bad"] += whole_design()
+            # other-design stage (own stream, drawn unconditionally: a replay builds the same second
+            # design): a SECOND design with the same formula text is built on another frame with other
+            # level / group counts AFTER the first design has been judged; the first design's training
+            # objects (slices, widths, labels, views, printing, look-ups) and one object derived from it
+            # afterwards are then judged again -- designs are independent objects by the statement
+            rd = rng_for(seed, "c17", path, "other-design")
+            other_kind = rd.choice(OTHER_DESIGN)
+            if other_kind:
+                stage = "after a second design with the same formula text was built on another frame"
+                case["second_design_same_formula_built_afterwards_on"] = (
+                    "another generated frame, " + other_kind)
+                res.count("second design with the same formula text: " + other_kind)
+                d2 = other_frame(rd, other_kind, float_cols=is_float_path(path))
+                try:
+                    with warnings.catch_warnings():
+                        warnings.simplefilter("ignore")
+                        formulae.design_matrices(formula, d2, extra_namespace=dict(designs.NAMES, np=np))
+                except Exception as e:  # noqa
+                    res.count(f"second_design_error:{type(e).__name__}")
+                for kind in ("common", "group"):
+                    obj = getattr(dm, kind)
+                    if obj is None:
+                        continue
+                    again = [(obj, n, None)]
+                    if news:
+                        try:
+                            with warnings.catch_warnings():
+                                warnings.simplefilter("ignore")
+                                k = rd.randrange(len(news))
+                                again.append((obj.evaluate_new_data(news[k]), len(news[k]), news[k]))
+                        except Exception as e:  # noqa
+                            res.count(f"new_data_error_after_second_design:{type(e).__name__}")
+                    base_width = np.asarray(obj.design_matrix).shape[-1]
+                    for o, rows, nd in again:
+                        blocks = own_blocks(o, nd)
+                        v = view(o, rows, np.asarray(o.design_matrix).shape[-1] != base_width, nd, blocks)
+                        v["stage"] = stage + ("" if nd is None else " (object derived afterwards)")
+                        rec["after"].append(v)
+                        rec["bad"] += [f"{kind}, {v['stage']}: {b}" for b in api_checks(o, kind, nd, blocks)]
+                rec["bad"] += whole_design(stage + ": ")
         finally:
             formulae.config["EVAL_UNSEEN_CATEGORIES"] = old
         records.append(rec)
@@ -565,10 +805,13 @@ def explore(tier, seed, res=None, replay=None):
         rec["dup_terms"] = dup_terms
         problems = list(rec["bad"])
         impl_bad = []
-        for v, ok in zip(rec["views"] + rec["after"], sp["holds"]):
+        for v, ok, wok in zip(rec["views"] + rec["after"], sp["holds"], sp["widths_ok"]):
             if not ok:
                 problems.append(f"Spec.C17.holds false for object with terms {v['terms']}"
-                                + (f" {v['stage']}: slices {v['slices']}" if "stage" in v else ""))
+                                + (f" {v['stage']}: slices {v['slices']}" if "stage" in v else "")
+                                + ("" if wok else f": the slices {'' if 'stage' in v else v['slices']} "
+                                   f"are not as wide as the terms' own blocks {v.get('widths')} "
+                                   "(Spec.C17.widthsOk)"))
                 impl_bad.append(v)
         if problems:
             fid = None
